@@ -20,7 +20,9 @@ MANIFEST = dict(
          "selected frames, ordered merges, no bad unlock, deadlock freedom, termination). The real dispatcher is run "
          "under a scheduler that owns every mutex decision: TLC-generated schedules are imposed step by step, random "
          "schedules are recorded and accepted/rejected by TLC, and for small configurations every schedule of the "
-         "real code is enumerated and the resulting transition graph must equal TLC's.",
+         "real code is enumerated and the resulting transition graph must equal TLC's. Error path (FaultTF.tla): with an "
+         "exception injected for one frame every interleaving aborts or completes, never deadlocks; random real schedules "
+         "with the same fault must not end with no enabled thread.",
     note="Trusted: the baton scheduler and its hook placement (Mutex::Lock/Unlock, Thread start/begin/end/join), the "
          "in-memory trajectory reader/worker of the driver, TLC. Data races on state not protected by any mutex are "
          "only visible at yield points (reader, eval, merge bodies are harness code with a yield inside).")
@@ -156,6 +158,10 @@ def run(ctx):
             return False
         if e["deadlock"]:
             ctx.violation("dispatcher:%s:deadlock" % tag, "no enabled thread: %s (%s)" % (e["error"], where),
+                          {"cfg": b, "schedule": [s["t"] for s in run["steps"]]})
+            return False
+        if e.get("leftover") and where != "fault injection":
+            ctx.violation("dispatcher:%s:threads-left-behind" % tag, "the run returned while %d worker thread(s) were still blocked (%s)" % (e["leftover"], where),
                           {"cfg": b, "schedule": [s["t"] for s in run["steps"]]})
             return False
         if e["max_in_reader"] > 1:
@@ -372,6 +378,85 @@ def run(ctx):
                 sorted(got), want, r, nw, e["rc"], e["error"]), {"vector": r, "nw": nw, "ord": ord_})
     if vecs:
         ctx.sample({"seek_vector": vecs[len(vecs) // 2]})
+    vlib.log('phase 5 (seek) done %.0fs' % (__import__('time').time() - ctx.t0))
+
+    # ---- 6. error path: an exception leaves the reader / a worker's EvalConfiguration (FaultTF.tla) ------------------
+    # TLC: every interleaving either completes (faulty frame not selected) or aborts, never deadlocks; the outcome is a
+    # function of (configuration, fault).  Real code: random schedules with the same fault injected; a run that ends in
+    # a state where nobody can move is a deadlock (property), any other disagreement with the spec's outcome is drift.
+    res = vlib.tlc("threaded_frames", "MCFaultTF", cfg="MCFaultTF.cfg", timeout=3000, workers=8)
+    vlib.tlc_must_hold(res, "FaultTF: deadlock freedom and termination with a failing frame")
+    ctx.add_tlc("MCFaultTF.cfg", res)
+    expect = {}
+    for r in res.records:
+        key = (r["c"]["nw"], r["c"]["k"], r["c"]["b"], bool(r["c"]["ord"]), r["f"], r["at"])
+        if expect.setdefault(key, r["outcome"]) != r["outcome"]:
+            raise vlib.InfraError("FaultTF: outcome not determined for %s" % (key,))
+    if not expect or "abort" not in expect.values() or "complete" not in expect.values():
+        raise vlib.InfraError("FaultTF exported no outcomes")
+    keys = sorted(expect)
+    per = 2 if quick else 12
+    lines, meta = [], []
+    for key in keys:
+        nw, k, b, o, f, at = key
+        for _ in range(per if nw > 1 else 1):
+            lines.append("fault %d %d %d %d %d %d %s" % (nw, k, b, 1 if o else 0, rnd.randrange(1 << 30), f, at))
+            meta.append(key)
+    # one process per run: a run that aborts leaves the process anyway, and a run that never ends (threads blocked outside
+    # the scheduler's model) must not take the others with it; a hang counts only if a second attempt hangs as well
+    runs = []
+    for ln in lines:
+        got = None
+        for to in (60, 180):
+            rc, out, err = vlib.run_driver(exe, ln + "\n", args=["batch"], timeout=to)
+            rr = split_runs(out)
+            if rc != -999:
+                if len(rr) != 1:
+                    raise vlib.InfraError("fault run '%s' failed rc=%s %s" % (ln, rc, err[-500:]))
+                got = rr[0]
+                break
+        if got is None:
+            got = {"begin": {}, "steps": [], "end": {"hang": True}, "raw": []}
+        runs.append(got)
+    n_abort = 0
+    for key, run in zip(meta, runs):
+        if run["end"] and run["end"].get("hang"):
+            nw, k, b, o, f, at = key
+            ctx.count()
+            ctx.violation("dispatcher:%s:hang:after-worker-exception" % ("ordered" if o else "unordered"),
+                          "an exception left %s for frame %d and the run did not end within 60 s and, repeated, 180 s"
+                          % ("the trajectory reader" if at == "read" else "EvalConfiguration", f),
+                          {"nw": nw, "k": k, "b": b, "ord": o, "fault_frame": f, "fault_at": at})
+            continue
+        ctx.count()
+        ctx.traces += 1
+        ctx.nontriv(("fault", key, run["begin"].get("seed")))
+        nw, k, b, o, f, at = key
+        tag = "ordered" if o else "unordered"
+        e = run["end"]
+        cfgd = {"nw": nw, "k": k, "b": b, "ord": o, "fault_frame": f, "fault_at": at, "seed": run["begin"].get("seed")}
+        if e is None:
+            ctx.violation("dispatcher:%s:crash" % tag, "fault run produced no end record", cfgd)
+            continue
+        if e["deadlock"]:
+            ctx.violation("dispatcher:%s:deadlock:after-worker-exception" % tag,
+                          "an exception left %s for frame %d and the run ended with no enabled thread instead of aborting: %s"
+                          % ("the trajectory reader" if at == "read" else "EvalConfiguration", f, e["error"]), cfgd)
+            continue
+        if e["max_in_reader"] > 1 or e["max_in_merge"] > 1 or e["bad_unlock"]:
+            check_end(dict(run, begin=dict(run["begin"], ord=o)), "fault injection")
+            continue
+        got = "abort" if (e.get("terminated") or e["rc"] != 0) else "complete"
+        n_abort += got == "abort"
+        if got != expect[key]:
+            note_drift("fault-outcome", cfgd, "spec says the run %ss, the real run ended with rc=%s terminated=%s (%s)" % (
+                expect[key], e["rc"], e.get("terminated"), e["error"]))
+    if n_abort == 0:
+        raise vlib.InfraError("fault injection: no real run aborted (injection not effective)")
+    ctx.extra["fault_runs"] = len(runs)
+    ctx.extra["fault_runs_aborted"] = n_abort
+    ctx.sample({"fault_run": {"cfg+fault": list(meta[len(meta) // 2]), "end": runs[len(runs) // 2]["end"]}})
+    vlib.log('phase 6 (fault) done %.0fs' % (__import__('time').time() - ctx.t0))
     if drift:
         ctx.extra['spec_drift'] = drift
     ctx.exhaustive = False
